@@ -296,6 +296,20 @@ class SymStr:
                 return i
         return -1
 
+    def partition(self, sep):
+        i = self.find(sep)
+        if i < 0:
+            return self, "", ""
+        m = len(_chars(sep))
+        return SymStr(self.cs[:i]), SymStr(self.cs[i:i + m]), SymStr(self.cs[i + m:])
+
+    def rpartition(self, sep):
+        i = self.rfind(sep)
+        if i < 0:
+            return "", "", self
+        m = len(_chars(sep))
+        return SymStr(self.cs[:i]), SymStr(self.cs[i:i + m]), SymStr(self.cs[i + m:])
+
     def rfind(self, p, start=None, end=None):
         pc = _chars(p)
         m = len(pc)
